@@ -57,40 +57,51 @@ def project_action(a):
 class Tripwire:
     """Counts calls to numpy.random.rand and reports any other entropy source."""
 
-    NP_OTHERS = ["seed", "randint", "choice", "random_sample", "random", "ranf", "sample", "poisson", "uniform",
-                 "normal", "randn", "shuffle", "permutation", "bytes", "standard_normal", "beta",
-                 "binomial", "exponential", "dirichlet", "multinomial"]
+    UNIFORM = ["rand", "random", "random_sample", "ranf", "sample"]      # numpy's uniform [0,1) family: scripted
+    NP_BLIND = ["randint", "choice", "poisson", "uniform", "normal", "randn", "shuffle", "permutation", "bytes",
+                "standard_normal", "beta", "binomial", "exponential", "dirichlet", "multinomial"]
     PY_OTHERS = ["random", "randint", "choice", "choices", "shuffle", "uniform", "randrange", "sample",
                  "getrandbits", "gauss"]
 
     def __init__(self):
         self.draws = []
-        self.others = []
+        self.others = []      # entropy that is not numpy's global generator (or re-seeds it): a C14 matter
+        self.blind = []       # draws from numpy's global generator the harness cannot script: luck is observed
         self.value = 0.5
 
     @contextlib.contextmanager
     def scripted(self, value):
         self.draws = []
         self.others = []
+        self.blind = []
         self.value = value
         saved = {}
         saved_py = {}
 
-        orig_rand = np.random.rand
+        def mk_uniform(name, orig):
+            def fake(*args, **kw):
+                size = (args if args else None) if name == "rand" else (args[0] if args else kw.get("size"))
+                if self.value is None:          # record mode: the real generator draws, the value is only logged
+                    x = orig(*args, **kw)
+                    self.draws.append(float(np.asarray(x).reshape(-1)[0]))
+                    return x
+                self.draws.append(self.value)
+                if size is not None:
+                    return np.full(size, self.value)
+                return self.value
+            return fake
 
-        def fake_rand(*args):
-            if self.value is None:          # record mode: the real generator draws, the value is only logged
-                x = orig_rand(*args)
-                self.draws.append(float(np.asarray(x).reshape(-1)[0]))
-                return x
-            self.draws.append(self.value)
-            if args:
-                return np.full(args, self.value)
-            return self.value
-
-        def mk(name, orig):
+        def mk_seed(orig):
             def w(*a, **k):
-                self.others.append("numpy.random." + name)
+                self.others.append("numpy.random.seed")
+                return orig(*a, **k)
+            return w
+
+        def mk_blind(name, orig):
+            def w(*a, **k):
+                if name == "uniform" and not a and not {"low", "high"} & set(k):
+                    return saved_fake["random_sample"](k.get("size"))
+                self.blind.append("numpy.random." + name)
                 return orig(*a, **k)
             return w
 
@@ -100,12 +111,18 @@ class Tripwire:
                 return orig(*a, **k)
             return w
 
-        saved["rand"] = np.random.rand
-        np.random.rand = fake_rand
-        for n in self.NP_OTHERS:
+        saved_fake = {}
+        for n in self.UNIFORM:
             if hasattr(np.random, n):
                 saved[n] = getattr(np.random, n)
-                setattr(np.random, n, mk(n, saved[n]))
+                saved_fake[n] = mk_uniform(n, saved[n])
+                setattr(np.random, n, saved_fake[n])
+        saved["seed"] = np.random.seed
+        np.random.seed = mk_seed(saved["seed"])
+        for n in self.NP_BLIND:
+            if hasattr(np.random, n):
+                saved[n] = getattr(np.random, n)
+                setattr(np.random, n, mk_blind(n, saved[n]))
         for n in self.PY_OTHERS:
             saved_py[n] = getattr(_pyrandom, n)
             setattr(_pyrandom, n, mkpy(n, saved_py[n]))
@@ -287,7 +304,7 @@ class Recorder:
         obs, reward, term, trunc, info = ret
         uppm = ppm(u) if u is not None else ppm_recorded(self.trip.draws[0]) if self.trip.draws else 500000
         ev = dict(ev="step", env=eid, a=adesc, u=uppm, ndraw=len(self.trip.draws),
-                  entropy=list(self.trip.others),
+                  entropy=list(self.trip.others), blind=bool(self.trip.blind and not self.trip.draws),
                   pre_rows=diff_rows(self.last_post[eid], before),
                   post_rows=diff_rows(before, after),
                   obs=self.obs_record(env, obs, after, env.last_obs),
@@ -333,7 +350,7 @@ class Recorder:
             oarr = obs.numpy()
         uppm = ppm(u) if u is not None else ppm_recorded(self.trip.draws[0]) if self.trip.draws else 500000
         ev = dict(ev="genstep", env=eid, a=adesc, u=uppm, ndraw=len(self.trip.draws),
-                  entropy=list(self.trip.others),
+                  entropy=list(self.trip.others), blind=bool(self.trip.blind and not self.trip.draws),
                   pre_rows=diff_rows(self.last_post[eid], arg_copy),
                   post_rows=diff_rows(arg_copy, nstate.tensor),
                   obs=self.obs_record(env, oarr, nstate.tensor, obs),
